@@ -105,6 +105,19 @@ CHECKS = {
          "equidistribution tools report a statistic iff the defining identity holds. Exhaustive correspondence on all permutations of length <=7.",
          "known findings: table entries 14/15 (LIS/LDS bound to longest run; README doctest pins them), max_drop_size (doctest-pinned), layer peeling "
          "(doctest-pinned); pop-stack termination bound and threepats/fourpats/min_gapsize/jointly_* are correspondence-only.", "5/C11"),
+ "C13": ("Lean 4 theorems: every scan = its juxtaposition/type class, verdict = criterion of the structure theorem, set semantics, memo/history and container independence, invariance under the eight symmetries, infinite classes never empty + correspondence against real enumeration",
+         "Proved for all bases: each of the code's scans decides exactly its class (four juxtaposition classes, ten minimal non-polynomial classes incl. L2), "
+         "is_finite/is_polynomial/is_insertion_encodable(_rightmost/_maximum) return exactly the right-hand side of their structure theorem, depend only on the "
+         "set of basis elements (order, repetition, container kind incl. one-shot iterators, memo state and call history), are invariant under all eight "
+         "symmetries, and a class declared infinite has a member of every length. Exhaustive correspondence on all subsets of <=3 perms of length <=4 in every "
+         "container form, cross-checked by the oracle against brute-force enumeration (Erdos-Szekeres bound, Fibonacci lower bound) up to n=9.",
+         "the structure theorems themselves (Kaiser-Klazar/Huczynska-Vatter, Albert-Linton-Ruskuc) are cited, not proved; the fib and Erdos-Szekeres bounds are evaluated up to n=9.", "5/C13"),
+ "C19": ("Lean 4 theorems: each core strategy applies iff some symmetric image satisfies its stated condition, shape predicates = their definitions, totality, order/repetition invariance, quick = slow minus long strategies; strategy tables regenerated from source + correspondence",
+         "Proved for all bases of non-empty permutations: coreApplies <-> exists symmetric image with every needed pattern excluded from the class and every "
+         "other element of the prescribed one-plus-(in)decomposable form (zero_plus_*, Rd2134/Ru2143 shapes characterised by definition), no exception, invariance "
+         "under order and repetition, insertion-encoding strategy = is_insertion_encodable, find_strategies(quick) = slow result minus long strategies. "
+         "Exhaustive correspondence on all sets of <=3 permutations of length 1-4 with an independent oracle and all eight images.",
+         "invariance of the core strategies under the eight images is evaluated (sym8find lines), not proved; FinitelyManySimples takes has_finite_simples as input (C16).", "5/C19"),
 }
 
 PENDING = {}
